@@ -347,6 +347,9 @@ func (g *Gen) buildTx() *Step {
 		if mode != ModeValid && g.R.Chance(0.12) {
 			g.misdirectOneID(m)
 		}
+		if mode == ModeHostile && !strings.HasPrefix(kind, "ICA") && g.R.Chance(0.2) {
+			g.malformOneField(m)
+		}
 		msgs = append(msgs, m)
 		if note != "" {
 			note += "+"
@@ -475,6 +478,130 @@ func (g *Gen) misdirectOneID(m sdk.Msg) {
 		}
 		return s
 	})
+}
+
+// malformOneField damages one field of the message in a way stateless validation is there to
+// catch: an address that is not one, an identifier in the wrong shape, an emptied list, a
+// missing sub-message. (What a keeper does with such a message only matters if validation lets
+// it through - which is exactly what a weakened validation rule does.)
+func (g *Gen) malformOneField(m sdk.Msg) {
+	switch g.R.Intn(4) {
+	case 0: // an address
+		n, k, i := 0, 0, 0
+		isAddr := func(s string) bool {
+			if !strings.HasPrefix(s, "regen1") {
+				return false
+			}
+			_, err := sdk.AccAddressFromBech32(s)
+			return err == nil
+		}
+		walkStrings(reflect.ValueOf(m), func(s string) string {
+			if isAddr(s) {
+				n++
+			}
+			return s
+		})
+		if n == 0 {
+			return
+		}
+		k = g.R.Intn(n)
+		walkStrings(reflect.ValueOf(m), func(s string) string {
+			if isAddr(s) {
+				if i++; i-1 == k {
+					g.W.Probe("hostile_malformed_address")
+					switch g.R.Intn(5) {
+					case 0:
+						return ""
+					case 1:
+						return "cosmos1" + s[6:] // another prefix, checksum now wrong
+					case 2:
+						return s[:len(s)-1] // truncated
+					case 3:
+						return strings.ToUpper(s[:8]) + s[8:] // mixed case
+					default:
+						return s + " "
+					}
+				}
+			}
+			return s
+		})
+	case 1: // an identifier
+		n, k, i := 0, 0, 0
+		isID := func(s string) bool {
+			return reGenBatchDenom.MatchString(s) || reGenProjectID.MatchString(s) || reGenClassID.MatchString(s) || reGenBasketDenom.MatchString(s)
+		}
+		walkStrings(reflect.ValueOf(m), func(s string) string {
+			if isID(s) {
+				n++
+			}
+			return s
+		})
+		if n == 0 {
+			return
+		}
+		k = g.R.Intn(n)
+		walkStrings(reflect.ValueOf(m), func(s string) string {
+			if isID(s) {
+				if i++; i-1 == k {
+					g.W.Probe("hostile_malformed_identifier")
+					switch g.R.Intn(5) {
+					case 0:
+						return ""
+					case 1:
+						return strings.ToLower(s)
+					case 2:
+						return s + " "
+					case 3:
+						return " " + s
+					default:
+						return s[:len(s)-1] + "x"
+					}
+				}
+			}
+			return s
+		})
+	case 2: // empty a list
+		g.mutateAggregate(reflect.ValueOf(m), true)
+	default: // drop a sub-message
+		g.mutateAggregate(reflect.ValueOf(m), false)
+	}
+}
+
+// mutateAggregate empties one non-empty slice (list=true) or nils one non-nil message pointer
+// (list=false) among the exported fields of the top-level message.
+func (g *Gen) mutateAggregate(v reflect.Value, list bool) {
+	for v.Kind() == reflect.Ptr || v.Kind() == reflect.Interface {
+		if v.IsNil() {
+			return
+		}
+		v = v.Elem()
+	}
+	if v.Kind() != reflect.Struct {
+		return
+	}
+	var cands []reflect.Value
+	for i := 0; i < v.NumField(); i++ {
+		f := v.Field(i)
+		if v.Type().Field(i).PkgPath != "" || !f.CanSet() {
+			continue
+		}
+		switch {
+		case list && f.Kind() == reflect.Slice && f.Type().Elem().Kind() != reflect.Uint8 && f.Len() > 0:
+			cands = append(cands, f)
+		case !list && f.Kind() == reflect.Ptr && !f.IsNil() && f.Type().Elem().Kind() == reflect.Struct:
+			cands = append(cands, f)
+		}
+	}
+	if len(cands) == 0 {
+		return
+	}
+	f := cands[g.R.Intn(len(cands))]
+	f.Set(reflect.Zero(f.Type()))
+	if list {
+		g.W.Probe("hostile_emptied_list")
+	} else {
+		g.W.Probe("hostile_missing_sub_message")
+	}
 }
 
 // txStep wraps messages into a fault-free, fresh tx step (used by probes).
